@@ -247,5 +247,11 @@ int main() {
 		m.setContext(&ctx);
 		m.enter(); m.update(); r += m.activeStateId(); m.exit();
 	}
+	// the name table of the logging helpers covers every enumerator whatever the switches are
+	for (int k = 1; k < static_cast<int>(ffsm2::Method::COUNT); ++k) {
+		const char* const name = ffsm2::methodName(static_cast<ffsm2::Method>(k));
+		if (!name || !name[0]) return 2;
+		r += name[0];
+	}
 	return r == 12345 ? 1 : 0;
 }
